@@ -130,6 +130,14 @@ def warm_up() -> None:
         ops.execute(op)
 
 
+def heavy_warm_up() -> None:
+    """~220 distinct bank-code lookups (and a few repeats) before the simulated threads start."""
+    bk = POOL["bank_keys"]
+    keys = bk["single"] + bk["multi"] + bk["ordersens"]
+    for cc, code in keys + keys[:10]:
+        ops.execute(["bic_candidates", cc, code])
+
+
 def default_warm_battery(pool: dict) -> list:
     b = [["iban", "DE89370400440532013000", {"validate_bban": True}],
          ["iban_props", "DE89370400440532013000"],
